@@ -36,6 +36,8 @@ var c19Seeds = []string{
 	"##!> include ok -- @\n", "##!> include nosuchfile -- x y z\n", "##!> include-except ok b -- a\n", "##!> include a --\n", "##!> include a -- \n", "##!> include a -- \"\"\n", "##!> include-except a b -- \"\" \"\" x\n", "##!> include ok -- a b c d e\n",
 	// a replacement that is a single quote character, with an entry that ends in the key; include files that consist of prefix / suffix lines only
 	"##!> include ok -- e \"\n", "##!> include a -- a \"\n", "##!> include-except ok b -- e \" x \"\"\n", "##!^ \\b\n", "##! c\n##!$ x\n", "##!> define d x\n##!^ {{d}}\n", "##!^ a\n##!$ b\n\n",
+	// include cycles with a fan-out of two and more
+	"##!> include fz\n##!> include fz\n", "##!> include twice\n", "##!> include ping\n##!> include pong\n##!> include-except ping pong\n", "x\n##!> include fz -- a b\n##!> include-except fz ok\n##!> include fz\n",
 	// fragments of a byte order mark at the start of the input
 	"\xef\xbb\n", "\xef\xbb", "\xef\n", "\xef\xbb\xbf", "\xef\xbb\r\nfoo\n", "\xef\xbb\xbf\n\xef\xbb\n", "\xfe\xff", "\xff\xfe\n",
 	"##!> define a {{a}}\n{{a}}\n", "##!> define a {{b}}\n##!> define b {{a}}\n{{a}}{{b}}\n", "##!^ (\n##!$ )\nx\n", "##!^ [\n##!$ ]\nx\n", "(?i)a\n(?s).\n", "a|b|\n|\n", "()\n(|)\n", "[]]\n[^]]\n", "\\\n", "x{2}{3}\n", "a**\n",
@@ -86,6 +88,7 @@ func c19Check(env *core.Env, cc core.Case) core.Verdict {
 		"regex-assembly/exclude/b.ra":    "fromfileb\n",
 		"regex-assembly/include/ping.ra": "pingword\n##!> include pong\n",
 		"regex-assembly/include/pong.ra": "##!> include ping\npongword\n",
+		"regex-assembly/include/twice.ra": "##!> include twice\n##!> include twice\nw\n",
 	}
 	type inv struct {
 		args  []string
@@ -109,6 +112,15 @@ func c19Check(env *core.Env, cc core.Case) core.Verdict {
 		}
 		invs = []inv{{[]string{"regex", "generate", "932100"}, nil}, {[]string{"regex", "compare", "932100"}, nil}, {[]string{"regex", "format", "--check", "932100"}, nil},
 			{[]string{"regex", "update", "932100"}, nil}, {[]string{"regex", "format", "932100"}, nil}, {[]string{"regex", "generate", "932100"}, nil}}
+		if len(c.Input)%5 == 1 {
+			// a second rules file that stops in the middle of a chained rule (its last line is the chained SecRule line, no
+			// final newline), addressed through a chain offset
+			tree["rules/REQUEST-933-APPLICATION-ATTACK-PHP.conf"] = "SecRule ARGS \"@rx first\" \\\n    \"id:933100,\\\n    phase:2,\\\n    chain\"\n    SecRule ARGS \"@rx old\" \\"
+			tree["regex-assembly/933100-chain1.ra"] = c.Input
+			tree["regex-assembly/933100-chain2.ra"] = c.Input
+			invs = append(invs, inv{[]string{"regex", "compare", "933100-chain1"}, nil}, inv{[]string{"regex", "update", "933100-chain1"}, nil}, inv{[]string{"regex", "compare", "933100-chain2"}, nil},
+				inv{[]string{"regex", "compare", "--all"}, nil}, inv{[]string{"-o", "github", "regex", "update", "--all"}, nil})
+		}
 	}
 	dirArg := root
 	if shape, ok := strings.CutPrefix(c.Via, "tree:"); ok {
